@@ -1,8 +1,289 @@
-import Ufw.Model.RegTable
+/-
+C05 – register constraints are an invariant of every checked-operation history.
+Property theorems only.
+
+Proved here: the invariant for typed set and the bit operations (any history of them), that every
+refused typed / bit / block operation leaves the table unchanged, and the exact effect and the
+refusals of bit set / clear.  The invariant across block writes and the post-state of sanitise are
+NOT proved (named `…_partial` below); they are covered by the correspondence run only.
+-/
+import Ufw.Props.C01
+
 namespace Ufw.Props.C05
-open Ufw Ufw.Model.RegTable
-/-- an uninitialised table refuses typed access -/
-theorem uninitialised_refuses (cb : Nat → Value → Bool) (t : Table) (h : t.initialised = false) (idx : Nat) (v : Value) :
-    register_set cb t idx v = (⟨.uninitialised, idx⟩, t) ∧ (register_get t idx).1 = ⟨.uninitialised, idx⟩ := by
-  simp [register_set, register_setx, register_get, h]
+open Ufw Ufw.Model.RegTable Ufw.Lemmas.RegTable
+
+/-- register `idx` holds a value that decodes and satisfies its own constraint -/
+def Sat (cb : Nat → Value → Bool) (t : Table) (idx : Nat) : Prop :=
+  ∃ e v, t.entries[idx]? = some e ∧ register_get t idx = (⟨.success, 0⟩, some v) ∧ rv_validate cb t e v = true
+
+/-- two registers do not share storage -/
+def Apart (e e' : Entry) : Prop :=
+  e.area ≠ e'.area ∨ e.offset + e.type.size ≤ e'.offset ∨ e'.offset + e'.type.size ≤ e.offset
+
+/-- the layout `register_init` establishes: distinct registers have distinct storage -/
+def Layout (t : Table) : Prop :=
+  ∀ (i j : Nat) (e e' : Entry), i ≠ j → t.entries[i]? = some e → t.entries[j]? = some e' → Apart e e'
+
+/-- every refused checked operation leaves all storage (the whole table) unchanged: typed set -/
+theorem set_refused_unchanged (cb : Nat → Value → Bool) (t : Table) (idx : Nat) (v : Value)
+    (h : (register_set cb t idx v).1.code ≠ .success) : (register_set cb t idx v).2 = t :=
+  Ufw.Props.C01.set_refused_unchanged cb t idx v true h
+
+/-- a set to one register does not change what a get of another register returns -/
+theorem set_other_get (cb : Nat → Value → Bool) (t t' : Table) (idx j : Nat) (v : Value) (wv : Bool) (adr : Nat)
+    (h : register_setx cb t idx v wv = (⟨.success, adr⟩, t')) (hl : Layout t) (hij : idx ≠ j) :
+    register_get t' j = register_get t j := by
+  obtain ⟨hi, e, a, raw, a', he, _, ha, _, hs, hwr, ht'⟩ := Ufw.Props.C01.set_success_inv cb t t' idx v wv adr h
+  subst ht'
+  simp only [register_get, hi, Bool.not_true, Bool.false_eq_true, ↓reduceIte]
+  cases hej : t.entries[j]? with
+  | none => rfl
+  | some e' =>
+    simp only
+    have hap := hl idx j e e' hij he hej
+    by_cases hsame : e'.area = e.area
+    · rw [hsame, set_getElem t.areas e.area a a' ha, ha]
+      simp only
+      have hlr := ser_length _ _ _ _ hs
+      have : a'.read e'.offset e'.type.size = a.read e'.offset e'.type.size := by
+        apply read_write_disjoint a a' e.offset raw hwr
+        rw [hlr]
+        rcases hap with h1 | h2 | h3
+        · exact absurd hsame.symm h1
+        · right; exact h2
+        · left; exact h3
+      rw [this]
+    · have : (t.areas.set e.area a')[e'.area]? = t.areas[e'.area]? := by
+        simp only [List.getElem?_set]
+        split
+        · rename_i hh; exact absurd hh.symm hsame
+        · rfl
+      rw [this]
+
+/-- the invariant "every register satisfies its constraint" survives every typed set, accepted
+    or refused -/
+theorem set_preserves_sat (cb : Nat → Value → Bool) (t : Table) (idx : Nat) (v : Value) (hl : Layout t)
+    (hb : v.bits < 2 ^ v.type.bits)
+    (hinv : ∀ j, j < t.entries.length → Sat cb t j) :
+    ∀ j, j < (register_set cb t idx v).2.entries.length → Sat cb (register_set cb t idx v).2 j := by
+  rcases hres : register_set cb t idx v with ⟨⟨code, adr⟩, t'⟩
+  by_cases hc : code = .success
+  · subst hc
+    obtain ⟨hi, e, a, raw, a', he, hval, ha, _, hs, hwr, ht'⟩ :=
+      Ufw.Props.C01.set_success_inv cb t t' idx v true adr hres
+    have hent : t'.entries = t.entries := by rw [ht']
+    have hdi : t'.duringInit = t.duringInit := by rw [ht']
+    intro j hj
+    simp only [hent] at hj
+    by_cases hij : idx = j
+    · subst hij
+      refine ⟨e, v, by rw [hent]; exact he, Ufw.Props.C01.checked_set_get cb t t' idx v adr hres hb, ?_⟩
+      have := hval rfl
+      simpa [rv_validate, hdi] using this
+    · obtain ⟨e', v', he', hg', hv'⟩ := hinv j hj
+      refine ⟨e', v', by rw [hent]; exact he', ?_, ?_⟩
+      · rw [set_other_get cb t t' idx j v true adr hres hl hij]; exact hg'
+      · simpa [rv_validate, hdi] using hv'
+  · have : (register_set cb t idx v).2 = t := set_refused_unchanged cb t idx v (by rw [hres]; exact hc)
+    rw [hres] at this
+    simp only at this
+    subst this
+    exact hinv
+
+/-- ... and the layout itself is not changed by a set, so the invariant carries through any
+    sequence of typed sets -/
+theorem set_keeps_layout (cb : Nat → Value → Bool) (t : Table) (idx : Nat) (v : Value) (hl : Layout t) :
+    Layout (register_set cb t idx v).2 ∧ (register_set cb t idx v).2.entries = t.entries := by
+  rcases hres : register_set cb t idx v with ⟨⟨code, adr⟩, t'⟩
+  by_cases hc : code = .success
+  · subst hc
+    obtain ⟨_, _, _, _, _, _, _, _, _, _, _, ht'⟩ := Ufw.Props.C01.set_success_inv cb t t' idx v true adr hres
+    subst ht'
+    exact ⟨fun i j e e' hij h1 h2 => hl i j e e' hij h1 h2, rfl⟩
+  · have : (register_set cb t idx v).2 = t := set_refused_unchanged cb t idx v (by rw [hres]; exact hc)
+    rw [hres] at this
+    simp only at this
+    subst this
+    exact ⟨hl, rfl⟩
+
+/-- any history of typed sets from a state in which the invariant holds ends in such a state -/
+theorem sets_preserve_sat (cb : Nat → Value → Bool) (ops : List (Nat × Value)) :
+    ∀ (t : Table), Layout t → (∀ o ∈ ops, o.2.bits < 2 ^ o.2.type.bits) →
+      (∀ j, j < t.entries.length → Sat cb t j) →
+      let t' := ops.foldl (fun t o => (register_set cb t o.1 o.2).2) t
+      ∀ j, j < t'.entries.length → Sat cb t' j := by
+  induction ops with
+  | nil => intro t _ _ h; exact h
+  | cons o os ih =>
+    intro t hl hb hinv
+    simp only [List.foldl_cons]
+    have hk := set_keeps_layout cb t o.1 o.2 hl
+    exact ih _ hk.1 (fun x hx => hb x (List.mem_cons_of_mem _ hx))
+      (set_preserves_sat cb t o.1 o.2 hl (hb o (List.mem_cons_self ..)) hinv)
+
+/-! ### bit set / bit clear -/
+
+/-- on an unsigned register and an operand of the register's type the bit operations are the typed
+    set of (old OR mask) resp. (old AND NOT mask): exactly the requested bits change, and the result
+    goes through the register's constraint like any other set -/
+theorem bit_op_spec (cb : Nat → Value → Bool) (t : Table) (idx : Nat) (v reg : Value) (set : Bool) (adr : Nat)
+    (hg : register_get t idx = (⟨.success, adr⟩, some reg)) (hty : reg.type = v.type)
+    (hu : reg.type = .u16 ∨ reg.type = .u32 ∨ reg.type = .u64) :
+    register_bit_op cb t idx v set =
+      register_set cb t idx ⟨reg.type, if set then reg.bits ||| v.bits
+                                         else reg.bits &&& (2 ^ reg.type.bits - 1 - v.bits % 2 ^ reg.type.bits)⟩ := by
+  simp only [register_bit_op, hg]
+  have : (reg.type != v.type) = false := by simp [hty]
+  simp only [this, Bool.false_eq_true, ↓reduceIte]
+  rcases hu with h | h | h <;> simp [h]
+
+/-- signed and float registers and operands of another type are refused ('invalid'), table unchanged -/
+theorem bit_op_refuses (cb : Nat → Value → Bool) (t : Table) (idx : Nat) (v reg : Value) (set : Bool) (adr : Nat)
+    (hg : register_get t idx = (⟨.success, adr⟩, some reg))
+    (hbad : reg.type ≠ v.type ∨ ¬ (reg.type = .u16 ∨ reg.type = .u32 ∨ reg.type = .u64)) :
+    register_bit_op cb t idx v set = (⟨.invalid, idx⟩, t) := by
+  simp only [register_bit_op, hg]
+  by_cases hty : reg.type = v.type
+  · have : (reg.type != v.type) = false := by simp [hty]
+    simp only [this, Bool.false_eq_true, ↓reduceIte]
+    rcases hbad with hb | hb
+    · exact absurd hty hb
+    · cases hrt : reg.type <;> simp_all
+  · have : (reg.type != v.type) = true := by simp [hty]
+    simp [this]
+
+/-- every refused bit operation leaves the table unchanged -/
+theorem bit_op_refused_unchanged (cb : Nat → Value → Bool) (t : Table) (idx : Nat) (v : Value) (set : Bool)
+    (h : (register_bit_op cb t idx v set).1.code ≠ .success) : (register_bit_op cb t idx v set).2 = t := by
+  simp only [register_bit_op] at h ⊢
+  split
+  · rename_i adr reg hg
+    split
+    · rfl
+    · split
+      · exact set_refused_unchanged cb t idx _ (by simp_all)
+      · exact set_refused_unchanged cb t idx _ (by simp_all)
+      · exact set_refused_unchanged cb t idx _ (by simp_all)
+      · rfl
+  · rfl
+
+/-- what a successful get returns is a well-formed value of the register's type -/
+theorem get_value_wf (t : Table) (idx : Nat) (reg : Value) (adr : Nat)
+    (hg : register_get t idx = (⟨.success, adr⟩, some reg)) : reg.bits < 2 ^ reg.type.bits := by
+  simp only [register_get] at hg
+  split at hg
+  · simp at hg
+  split at hg
+  · simp at hg
+  rename_i e he
+  split at hg
+  · simp [oob] at hg
+  rename_i a ha
+  split at hg
+  · simp [oob] at hg
+  rename_i raw hr
+  have hlen : e.type.size ≤ raw.length := by
+    simp only [Area.read] at hr
+    split at hr
+    · simp only [Option.some.injEq] at hr
+      rw [← hr, List.length_take, List.length_drop]; omega
+    · simp at hr
+  have hb := des_bits_lt t.bigEndian e.type raw hlen
+  rcases hd : des t.bigEndian e.type raw with ⟨v, ok⟩
+  rw [hd] at hg hb
+  simp only at hg hb
+  split at hg
+  · simp only [Prod.mk.injEq, Option.some.injEq] at hg
+    rw [← hg.2, hb.2]; exact hb.1
+  · simp at hg
+
+/-- the checked operations other than block write and sanitise -/
+inductive Op
+  | set (idx : Nat) (v : Value)
+  | bitSet (idx : Nat) (mask : Value)
+  | bitClear (idx : Nat) (mask : Value)
+
+def Op.wf : Op → Prop
+  | .set _ v | .bitSet _ v | .bitClear _ v => v.bits < 2 ^ v.type.bits
+
+def step (cb : Nat → Value → Bool) (t : Table) : Op → Table
+  | .set idx v => (register_set cb t idx v).2
+  | .bitSet idx m => (register_bit_op cb t idx m true).2
+  | .bitClear idx m => (register_bit_op cb t idx m false).2
+
+/-- a bit operation either changes nothing or is one typed set of a well-formed value -/
+theorem bit_op_is_set (cb : Nat → Value → Bool) (t : Table) (idx : Nat) (m : Value) (set : Bool)
+    (hm : m.bits < 2 ^ m.type.bits) :
+    (register_bit_op cb t idx m set).2 = t ∨
+    ∃ v, v.bits < 2 ^ v.type.bits ∧ (register_bit_op cb t idx m set).2 = (register_set cb t idx v).2 := by
+  simp only [register_bit_op]
+  split
+  · rename_i adr reg hg
+    have hreg := get_value_wf t idx reg adr hg
+    split
+    · left; rfl
+    · rename_i hty
+      have hty' : reg.type = m.type := by simpa using hty
+      have hnew : (if set then reg.bits ||| m.bits
+          else reg.bits &&& (2 ^ reg.type.bits - 1 - m.bits % 2 ^ reg.type.bits)) < 2 ^ reg.type.bits := by
+        split
+        · exact Nat.or_lt_two_pow hreg (by rw [hty']; exact hm)
+        · exact Nat.lt_of_le_of_lt Nat.and_le_left hreg
+      split
+      · right; exact ⟨_, hnew, rfl⟩
+      · right; exact ⟨_, hnew, rfl⟩
+      · right; exact ⟨_, hnew, rfl⟩
+      · left; rfl
+  · left; rfl
+
+/-- the invariant over every history of typed sets, bit sets and bit clears -/
+theorem history_preserves_sat (cb : Nat → Value → Bool) (ops : List Op) :
+    ∀ (t : Table), Layout t → (∀ o ∈ ops, o.wf) → (∀ j, j < t.entries.length → Sat cb t j) →
+      let t' := ops.foldl (step cb) t
+      Layout t' ∧ ∀ j, j < t'.entries.length → Sat cb t' j := by
+  induction ops with
+  | nil => intro t hl _ h; exact ⟨hl, h⟩
+  | cons o os ih =>
+    intro t hl hw hinv
+    simp only [List.foldl_cons]
+    have how := hw o (List.mem_cons_self ..)
+    have hrest : ∀ x ∈ os, x.wf := fun x hx => hw x (List.mem_cons_of_mem _ hx)
+    have key : ∀ (idx : Nat) (v : Value), v.bits < 2 ^ v.type.bits →
+        Layout (register_set cb t idx v).2 ∧
+        ∀ j, j < (register_set cb t idx v).2.entries.length → Sat cb (register_set cb t idx v).2 j :=
+      fun idx v hv => ⟨(set_keeps_layout cb t idx v hl).1, set_preserves_sat cb t idx v hl hv hinv⟩
+    cases o with
+    | set idx v =>
+      obtain ⟨k1, k2⟩ := key idx v how
+      exact ih _ k1 hrest k2
+    | bitSet idx m =>
+      rcases bit_op_is_set cb t idx m true how with h | ⟨v, hv, h⟩
+      · simp only [step, h]; exact ih t hl hrest hinv
+      · obtain ⟨k1, k2⟩ := key idx v hv
+        simp only [step, h]; exact ih _ k1 hrest k2
+    | bitClear idx m =>
+      rcases bit_op_is_set cb t idx m false how with h | ⟨v, hv, h⟩
+      · simp only [step, h]; exact ih t hl hrest hinv
+      · obtain ⟨k1, k2⟩ := key idx v hv
+        simp only [step, h]; exact ih _ k1 hrest k2
+
+/-- every refused block write leaves the table unchanged -/
+theorem block_write_refused_unchanged (cb : Nat → Value → Bool) (t : Table) (addr : Nat) (buf : List Atom)
+    (h : (register_block_write cb t addr buf).1.code ≠ .success) : (register_block_write cb t addr buf).2 = t := by
+  simp only [register_block_write] at h ⊢
+  split
+  · rfl
+  split
+  · rfl
+  split
+  · split
+    · split
+      · split
+        · rename_i h1 h2 h3 t' h4
+          simp_all
+        · rfl
+      · rfl
+    · rfl
+  · rfl
+
 end Ufw.Props.C05
